@@ -342,6 +342,23 @@ func (V *Verifier) scanSwitch() []*Oblig {
 			}
 		}
 	}
+	var strStores []string
+	for _, fn := range sc.fns {
+		for _, b := range fn.Blocks {
+			for _, in := range b.Instrs {
+				if st, ok := in.(*ssa.Store); ok {
+					if g, isG := st.Addr.(*ssa.Global); isG && g.Name() == "enableAddAllowedBidder" && g.Pkg != nil && g.Pkg.Pkg.Path() == modKeeper {
+						if !(fn.Synthetic != "" && fn.Name() == "init") { // the package initialiser stores the declared default
+							strStores = append(strStores, sc.pos(in))
+						}
+					}
+				}
+			}
+		}
+	}
+	out = append(out, scanOblig("C10", "frame.link-time-string-is-never-assigned", len(strStores) == 0,
+		"nothing in the module assigns keeper.enableAddAllowedBidder: its value is the declared default unless the linker (-X) replaces it",
+		fmt.Sprintf("assignments: %v", strStores)))
 	out = append(out, scanOblig("C10", "frame.switch-is-exactly-the-parsed-link-time-string", parsedOK,
 		"keeper.init assigns to the switch exactly the boolean that strconv.ParseBool makes of the link-time string (no other value can enable MsgAddAllowedBidder)", why))
 	out = append(out, scanOblig("C10", "frame.switch-link-time-default-is-false", def == "false",
@@ -426,7 +443,8 @@ func (V *Verifier) scanDeterminism() []*Oblig {
 						if !normalised {
 							bad = append(bad, sc.pos(in)+" builds or inspects a time in the time zone of the process ("+nm+")")
 						}
-					case nm == "os.Getenv" || nm == "os.Hostname" || nm == "os.Getpid" || nm == "runtime.NumCPU" || nm == "runtime.NumGoroutine":
+					case nm == "os.Getenv" || nm == "os.LookupEnv" || nm == "os.Environ" || nm == "os.ExpandEnv" || nm == "os.Hostname" || nm == "os.Getpid" || nm == "os.Getppid" || nm == "os.Getuid" ||
+						nm == "os.Getwd" || nm == "os.UserHomeDir" || nm == "os.Executable" || nm == "os.ReadFile" || nm == "os.Open" || nm == "os.Stat" || nm == "runtime.NumCPU" || nm == "runtime.NumGoroutine":
 						bad = append(bad, sc.pos(in)+" depends on the process ("+nm+")")
 					}
 				case *ssa.UnOp:
